@@ -188,13 +188,29 @@ func TestC39(t *testing.T) {
 	}
 	r := vf.Start(t, "C39", vf.FaultEnumeration)
 	defer r.Finish()
-	r.SetRule("file-system states are enumerated (missing, missing parent, dangling symlink, empty, whitespace, 1 byte, random bytes, PEM of public/unknown type, private PEM with empty/garbage/truncated body, every proper prefix of a valid key file, byte flips of a valid key file, valid, valid via symlink, valid+trailing garbage, leading garbage+valid, CRLF, path below a regular file (ENOTDIR), directory at path (EISDIR), symlink to directory, symlink loop (ELOOP), name too long); thorough adds EACCES/EIO injected by strace into the k-th newfstatat/openat/read/write touching the path. One case = one state x one key; non-trivial = OpenOrWritePrivKey returned (no panic); distinct = distinct state. Oracle (from the property text, independent of keypem): never (nil,nil); missing => usable key k, file now regular 0600, second and third load give the same peer id and leave the bytes unchanged; harness-written key file => exactly that key; unreadable/empty/non-key => error and the path (kind, mode, bytes) unchanged.")
+	r.SetRule("entry points: keyfile.OpenOrWritePrivKey (every state); the command-line loaders of package cli driven through the real command definitions (EnvelopeArgs.BuildCommands): 'unseal --key <state>' on an envelope the harness sealed to the file key, 'unseal --key good --key <state>' in both orders on an envelope sealed to the good key only, 'seal --key <state>' (all fixed states, every third prefix/flip); the real cmd/bifrost binary built from the tree under test, 'daemon --node-priv <state>', awaited until it exits or logs the peer id it mounted (fixed states + sampled prefixes/flips); ClientArgs.LoadOrGenerateIdentifyKey (recorded, only panics judged: outside the property's anchors). Same oracle for every entry point: a state that holds no key must be reported as an error (command fails / daemon exits non-zero, never a panic, never success as if the key were absent) and leaves the path unchanged; the harness' key file yields exactly that key (unseals the envelope sealed to it / seal output opens with it / daemon mounts that peer id); a missing file yields a key that is written 0600 and reloads (harness' own PEM reader) to the identity that was used. file-system states are enumerated (missing, missing parent, dangling symlink, empty, whitespace, 1 byte, random bytes, PEM of public/unknown type, private PEM with empty/garbage/truncated body, every proper prefix of a valid key file, byte flips of a valid key file, valid, valid via symlink, valid+trailing garbage, leading garbage+valid, CRLF, path below a regular file (ENOTDIR), directory at path (EISDIR), symlink to directory, symlink loop (ELOOP), name too long); thorough adds EACCES/EIO injected by strace into the k-th newfstatat/openat/read/write touching the path. One case = one state x one key; non-trivial = OpenOrWritePrivKey returned (no panic); distinct = distinct state. Oracle (from the property text, independent of keypem): never (nil,nil); missing => usable key k, file now regular 0600, second and third load give the same peer id and leave the bytes unchanged; harness-written key file => exactly that key; unreadable/empty/non-key => error and the path (kind, mode, bytes) unchanged.")
 	r.Assume("A key whose file bytes were mutated (byte flip inside the base64 body) may still parse; the property does not say such a key must be rejected, so only (nil,nil) and panics are flagged there; unusable results are counted as accepted_mutant_unusable.")
 	r.Assume("When an error is returned a key may be returned as well (the function documents 'may return a private key + an error'); only the error is required.")
 	rng := r.Rand("c39")
 	nKeys := r.N(2, 6)
 	pool := keys.Pool(rng, nKeys)
 	base := t.TempDir()
+	cliBase := filepath.Join(base, "cli")
+	if err := os.Mkdir(cliBase, 0o700); err != nil {
+		t.Fatal(err)
+	}
+	ce := newCliEnv(t, cliBase, keys.New(r.Rand("c39/good-key")), pool)
+	// the daemon binary of the tree under test is built while the in-process loaders run
+	type built struct {
+		bin string
+		err error
+	}
+	daemonBin := make(chan built, 1)
+	go func() {
+		b, err := buildDaemon(t)
+		daemonBin <- built{b, err}
+	}()
+	var daemonJobs []daemonJob
 
 	randBytes := func(n int) []byte {
 		b := make([]byte, n)
@@ -322,6 +338,7 @@ func TestC39(t *testing.T) {
 			}},
 			{name: "empty-path", class: "stat-error-empty-path", exp: expError, setup: func(dir string) string { return "" }},
 		}
+		nFixed := len(states)
 		// every proper prefix of the valid file (first key: all; others: sampled)
 		step := 1
 		if ki > 0 {
@@ -351,7 +368,21 @@ func TestC39(t *testing.T) {
 				t.Fatal(err)
 			}
 			runState(r, id, st, dir)
+			// the same state through the command-line loaders (all fixed states; prefixes and flips sampled)
+			if si < nFixed || si%3 == ki%3 {
+				ce.runCli(r, id, st, si < nFixed, si)
+			}
+			// and through the daemon binary
+			if (si < nFixed && (ki == 0 || st.exp != expError || st.class == "empty" || st.class == "no-pem-block")) || (ki == 0 && si%24 == 0) {
+				daemonJobs = append(daemonJobs, daemonJob{id, st})
+			}
 		}
+	}
+
+	if b := <-daemonBin; b.err != nil {
+		r.Inconclusive("cmd/bifrost could not be built, daemon --node-priv not observed: " + b.err.Error())
+	} else {
+		ce.runDaemonStates(r, b.bin, daemonJobs)
 	}
 
 	if !r.Quick() {
